@@ -270,10 +270,33 @@ def io_buffer_rule(rep, tier):
                 continue
             dst, n = c.args[1], c.args[2]
             if n[0] != 'ci':
-                why = "a read transfers a number of bytes that depends on %s into a buffer" % ("the stream's contents" if io.wr_atoms(n) else "runtime values")
-                if dst[0] == 'ptr' and dst[1][0] in ('alloca', 'ret'):
-                    why += " of fixed size"
-                break
+                # a length computed at run time: decided only when it provably fits - a heap buffer allocated with the very same
+                # byte count, or a local buffer and a length that is one of finitely many constants; otherwise not decided
+                verdict = None
+                if dst[0] == 'ptr' and dst[1][0] == 'ret' and dst[2] == 0:
+                    newc = next((x for x in s.calls if x.n == dst[1][1]), None)
+                    if newc is not None and newc.name in ("_Znam", "_Znwm") and newc.args:
+                        a = newc.args[0]
+                        if a[0] == 'sel' and a[2] == ('ci', (1 << 64) - 1, 64):          # operator new[]'s overflow guard
+                            a = a[3]
+                        if a[0] == 'extractvalue' and a[1][0] in ('fn', 'call') and (a[1][1] or "").startswith("llvm.umul.with.overflow") and a[2] == 0:
+                            a = ('op', 'mul', 'i64', a[1][3], a[1][4])
+                        if ir.to_poly(a, 'int', width=64) == ir.to_poly(n, 'int', width=64):
+                            verdict = "ok"
+                elif dst[0] == 'ptr' and dst[1][0] == 'alloca' and isinstance(dst[2], int):
+                    size = getattr(s, "alloca_size", {}).get(dst[1][1])
+                    alts = ir.poly_cases(n, 'int', width=64)
+                    if size is not None and alts:
+                        consts = [list(p.t.values())[0] if p.t else 0 for _, p in alts if p.is_const()]
+                        over = [c_ for c_ in consts if dst[2] + c_ > size]
+                        if over:
+                            why = "a read of up to %d bytes targets a %d-byte local object at offset %d" % (max(over), size, dst[2])
+                            break
+                        if len(consts) == len(alts):
+                            verdict = "ok"
+                if verdict is None:
+                    rep.undecided("C15.U2-io %s: a read transfers a number of bytes computed at run time (%s) and the bound on it is not decided here" % (inst, ir.show(n)[:80]))
+                continue
             if dst[0] == 'ptr' and dst[1][0] == 'alloca' and isinstance(dst[2], int):
                 size = getattr(s, "alloca_size", {}).get(dst[1][1])
                 if size is not None and dst[2] + n[1] > size:
